@@ -217,6 +217,9 @@ var c18Twos = pbt.Register(pbt.Prop[C18Twos]{
 		return C18Twos{Bytes: b}
 	},
 	Check: func(c C18Twos) *pbt.Violation {
+		if hooks.BotTwos == nil {
+			return pbt.V("harness:hook-verif_twos-unavailable", "harness", "twosComplement cannot be reached on this tree")
+		}
 		want := java.Negate(c.Bytes)
 		a := hooks.BotTwos(append([]byte{}, c.Bytes...))
 		b := hooks.SrvTwos(append([]byte{}, c.Bytes...))
